@@ -83,8 +83,68 @@ def planted_corpus(ctx):
     return {"planted_pavexc_executions": n, "planted_exit_codes": exits, "planted_observations_reused_for_same_tree": reused}
 
 
+def output_fault_history(ctx, cases, results):
+    """Fault injection on the output side: an SDK from a previous successful run is on disk, the application changes, and the
+    next run cannot write its diagnostics file (parent directory missing). If that run fails, the SDK must be untouched."""
+    import copy
+    from e2e import engine
+    n = 3 if ctx.quick else 12
+    picked = [c for c in cases if c["mode"] == "inclass" and not c.get("regress") and len(c["spec"]["handlers"]) >= 2
+              and results.get(c["id"], {}).get("stages", {}).get("pavexc", {}).get("rc") == 0][:n]
+    out = {"output_fault_histories": 0, "output_fault_failed_runs": 0}
+    lock = threading.Lock()
+
+    def drop_route(spec):
+        alt = copy.deepcopy(spec)
+
+        def drop(bp):
+            for it in list(bp["items"]):
+                if it[0] == "route":
+                    bp["items"].remove(it)
+                    alt["handlers"].pop(it[1], None)
+                    return True
+                if it[0] == "nest" and drop(it[2]):
+                    return True
+            return False
+        return alt if drop(alt["bp"]) else None
+
+    def work(slot, c):
+        alt = drop_route(c["spec"])
+        if alt is None:
+            return
+        with engine.SlotLock(slot):
+            d = slots.slot_dir(slot)
+            slots.write_case(slot, c["spec"])
+            ok, _ = slots.build_app(slot)
+            if not ok or slots.run_pavexc(slot)["rc"] != 0:
+                return
+            slots.write_case(slot, alt)
+            ok, _ = slots.build_app(slot)
+            if not ok:
+                return
+            before = slots.sdk_snapshot(d)
+            r = slots.run_pavexc(slot, diag_path="no_such_directory/diag.dot")
+            after = slots.sdk_snapshot(d)
+        changed = sorted(k for k in set(before) | set(after) if before.get(k) != after.get(k) and k.startswith("sdk/"))
+        with lock:
+            out["output_fault_histories"] += 1
+            if r["rc"] != 0:
+                out["output_fault_failed_runs"] += 1
+                if changed:
+                    ctx.violation({"rule": "sdk_modified_on_failure", "fault": "diagnostics_file_unwritable"},
+                                  {"case": c["id"], "rc": r["rc"], "changed": changed, "stderr": r["stderr"][-800:], "spec": c["spec"]})
+    ths = [threading.Thread(target=work, args=(i % e2e_env.N_SLOTS, c)) for i, c in enumerate(picked)]
+    for k in range(0, len(ths), e2e_env.N_SLOTS):
+        for t in ths[k:k + e2e_env.N_SLOTS]:
+            t.start()
+        for t in ths[k:k + e2e_env.N_SLOTS]:
+            t.join()
+    return out
+
+
 def extra(ctx, cases, results):
     out = planted_corpus(ctx)
+    out.update(output_fault_history(ctx, cases, results))
     out.update(valgrind_supplement(ctx, cases, results))
     return out
 
